@@ -15,6 +15,7 @@ non-atomic payload (the `Inner` box: value + allocation), `n` threads.
   RMWs); a plain store writes `rel := if o.isRelease then view else ⊥`.  A read with an
   acquire ordering joins `read.rel` into `view`, otherwise into `pend`; an acquire fence does
   `view ⊔= pend`.  Release fences are not modelled (treated as no-ops: conservative).
+* The count lives in the same box as the payload: an atomic access after the free sets `uaf`.
 * The payload carries FastTrack-style access clocks: `acc[u]`/`wr[u]` = epoch of the last
   access / last write by thread `u` (a thread's own component is ticked at every payload
   access).  A read by `t` races unless `wr ≤ view t`; a write or the free races unless
@@ -108,7 +109,8 @@ structure State where
   freed : Nat
   /-- two conflicting payload accesses were not ordered by happens-before -/
   race : Bool
-  /-- the payload was accessed (or freed again) after it had been freed -/
+  /-- the payload or the count (which live in the same box) was accessed, or the box freed
+  again, after it had been freed -/
   uaf : Bool
   deriving DecidableEq, Repr, Inhabited, Hashable
 
@@ -181,21 +183,24 @@ def payFree (s : State) (t : Nat) (view : List Nat) : State :=
 
 /-- Thread `t` (old record `th`) reads message `i` with ordering `o` and continues at `pc'`. -/
 def doLoad (s : State) (t : Nat) (th : Thread) (i : Nat) (o : Ord) (pc' : Pc) : State :=
-  { s with thr := s.thr.set t (acquireInto { th with coh := i, pc := some pc' } o (s.msgAt i).rel) }
+  { s with thr := s.thr.set t (acquireInto { th with coh := i, pc := some pc' } o (s.msgAt i).rel),
+           uaf := s.uaf || decide (0 < s.freed) }
 
 /-- Thread `t` performs an atomic read-modify-write with ordering `o` writing `newVal`. -/
 def doRmw (s : State) (t : Nat) (th : Thread) (o : Ord) (newVal : Nat) (pc' : Pc) : State :=
   { s with hist := s.hist ++ [s.last],
            last := { val := newVal, rel := vjoin (if o.isRelease then th.view else []) s.last.rel },
            thr := s.thr.set t
-             (acquireInto { th with coh := s.hist.length + 1, pc := some pc' } o s.last.rel) }
+             (acquireInto { th with coh := s.hist.length + 1, pc := some pc' } o s.last.rel),
+           uaf := s.uaf || decide (0 < s.freed) }
 
 /-- Thread `t` performs a plain store (appended at the end of the modification order; it does
 not continue a release sequence). -/
 def doStore (s : State) (t : Nat) (th : Thread) (o : Ord) (newVal : Nat) (pc' : Pc) : State :=
   { s with hist := s.hist ++ [s.last],
            last := { val := newVal, rel := if o.isRelease then th.view else [] },
-           thr := s.thr.set t { th with coh := s.hist.length + 1, pc := some pc' } }
+           thr := s.thr.set t { th with coh := s.hist.length + 1, pc := some pc' },
+           uaf := s.uaf || decide (0 < s.freed) }
 
 /-! ## Completion of an action -/
 
